@@ -628,3 +628,54 @@ Theorem C06_event_logger_must_not_clean_the_error_in_place :
   (forall tr, texec true (tail_init false GDisconnect) tr = Some TEnd -> closes_conn tr = true).
 Proof. exact remap_refuted. Qed.
 Print Assumptions C06_event_logger_must_not_clean_the_error_in_place.
+
+(* ---- the relay of a SNIFFED connection (model/C06_Sniffed.v): handleTCPRequest with the hook branch (model/C06_Hook.v)
+   whose hook is the sniffer of extras/sniff (model/C17_Sniff.v sniff_tcp).  The client's stream behind the request is a
+   script s: any chunking, zero-length reads, EOF / reset / a fired read deadline at any position - in front of the three
+   probe bytes, inside the TLS record header, inside the record body, inside an HTTP header block.  `sniffed_over o s tr`:
+   if the run called the hook, the hook returned what the sniffer returns on s, and the Up loop read the head of what the
+   sniffer left unread (not hooked: the head of s).  No hypothesis about how much the hook took or handed back.
+   On every such run the target's stream is a prefix of the client's stream: nothing lost, duplicated, reordered. *)
+From Hy Require Import model.C17_Sniff proof.C17_Sniff model.C06_Sniffed proof.C06_Sniffed.
+
+Theorem C06_sniffed_target_prefix_of_client_stream : forall fuel consumer sni s addr o m tr p,
+  first_read_big consumer -> sniff_tcp fuel consumer sni false s addr = Ok o ->
+  hexec false m HReadReq tr = Some p -> wok_tr (relay_part tr) -> putback_accepted tr -> sniffed_over o s tr ->
+  exists rest, c17_unread s = htarget_in tr ++ rest.
+Proof. exact sniffed_target_prefix. Qed.
+Print Assumptions C06_sniffed_target_prefix_of_client_stream.
+
+(* ... and once the Up direction has returned nil (it read the client's stream to its EOF), the target holds everything
+   the sniffer and the Up loop took off the stream - wherever the sniffer stopped reading. *)
+Theorem C06_sniffed_target_gets_whole_client_stream : forall fuel consumer sni s addr o m tr tx0 st,
+  first_read_big consumer -> sniff_tcp fuel consumer sni false s addr = Ok o ->
+  hexec false m HReadReq tr = Some (HRelay tx0 st) -> wok_tr (relay_part tr) -> putback_accepted tr -> sniffed_over o s tr ->
+  (pcof st Up = PRet GNil \/ pcof st Up = PDone GNil) ->
+  exists later, c17_unread s = htarget_in tr ++ later /\ hputback tr ++ srcb Up (relay_part tr) = htarget_in tr.
+Proof. exact sniffed_target_whole. Qed.
+Print Assumptions C06_sniffed_target_gets_whole_client_stream.
+
+(* Every early return of the sniffer must hand back ALL it consumed: a read deadline fires 2 bytes into the body of a
+   300-byte TLS record; the variant whose early return is 2 bytes short (`short_out 2`) is accepted by the same handler,
+   every contract of the relay holds (writer contract, the Up loop reads exactly what was left and returns nil), and the
+   target receives the record header, then the bytes that arrived later: not a prefix of what the client sent. *)
+Theorem C06_sniffer_must_hand_back_all_it_consumed :
+  exists o st, sniff_tcp 0 sx_consumer sx_sni false sx_script sx_addr = Ok o /\
+    let pb := o_replay (short_out 2 o) in
+    hexec false Logged HReadReq (sx_run pb) = Some (HRelay 5 st) /\ par st = QDone /\ pcof st Up = PDone GNil /\
+    wok_tr (relay_part (sx_run pb)) /\ putback_accepted (sx_run pb) /\
+    hputback (sx_run pb) = pb /\ srcb Up (relay_part (sx_run pb)) = c17_unread (o_rest (short_out 2 o)) /\
+    htarget_in (sx_run pb) = [x16; x03; x01; x01; x2c] ++ sx_late /\
+    ~ exists rest, c17_unread sx_script = htarget_in (sx_run pb) ++ rest.
+Proof. exact short_putback_leaves_a_hole. Qed.
+Print Assumptions C06_sniffer_must_hand_back_all_it_consumed.
+
+(* Non-vacuity: the same history with the code's sniffer satisfies every hypothesis of the two theorems above and the
+   target received the client's stream whole. *)
+Theorem C06_example_sniffed_run : first_read_big sx_consumer /\
+  exists o st, sniff_tcp 0 sx_consumer sx_sni false sx_script sx_addr = Ok o /\
+    hexec false Logged HReadReq (sx_run sx_head) = Some (HRelay 7 st) /\ pcof st Up = PDone GNil /\
+    wok_tr (relay_part (sx_run sx_head)) /\ putback_accepted (sx_run sx_head) /\ sniffed_over o sx_script (sx_run sx_head) /\
+    htarget_in (sx_run sx_head) = c17_unread sx_script.
+Proof. exact sx_example. Qed.
+Print Assumptions C06_example_sniffed_run.
